@@ -8,10 +8,16 @@ affine_{joint,marginal,conditional}_transformation, integrate_log_conditional_y,
 get_lb_log_det.  The `_`-prefixed pieces of the lower bound (`_integrate_noise_diagonal`,
 `_get_omega_dagger`, `k_func`, `_get_omega_star`, `_update_omega_star`, `_lower_bound_integrals`) are
 exposed too, so that the model is compared on the intermediate quantities and on the body of the
-fixed-point iteration (which the public entry points never execute, see `het_omega_star`)."""
+fixed-point iteration (which the public entry points never execute, see `het_omega_star`).
+
+[hetero-trunc] HeteroscedasticHeavisideConditional / HeteroscedasticReLUConditional (tags `heaviside`, `relu`) go
+through the same instructions.  The step class leaves `k_func` and `_lower_bound_integrals` as `pass`: they return
+None (an empty array on both sides, see Machine._emit) and everything that unpacks the None raises TypeError."""
 import numpy as np
 
-HETERO_CLASSES = {"exp": "HeteroscedasticExpConditional", "coshm1": "HeteroscedasticCoshM1Conditional"}
+HETERO_CLASSES = {"exp": "HeteroscedasticExpConditional", "coshm1": "HeteroscedasticCoshM1Conditional",
+                  # [hetero-trunc] step / rectified-linear links (lean/GT/Model/HeteroTrunc.lean)
+                  "heaviside": "HeteroscedasticHeavisideConditional", "relu": "HeteroscedasticReLUConditional"}
 
 
 def hetero_class_tag(o):
@@ -31,7 +37,7 @@ def _lib():
 class HeteroOps:
     # -- constructor ---------------------------------------------------------------------------
     def hetero(self, cls, M, b, A, W):
-        """cls in {exp, coshm1}; M [R,Dy,Dx], b [R,Dy], A [R,Dy,Da], W [Dk,Dx+1]"""
+        """cls in {exp, coshm1, heaviside, relu}; M [R,Dy,Dx], b [R,Dy], A [R,Dy,Da], W [Dk,Dx+1]"""
         mm, ac, jnp = _lib()
         M = np.asarray(M, dtype=float); b = np.asarray(b, dtype=float)
         A = np.asarray(A, dtype=float); W = np.asarray(W, dtype=float)
